@@ -43,6 +43,7 @@ exist independently of any text.  For every writer route of xtuml/persist.py
      alone) equal the texts the implementation writes from its reloaded metamodels.
 """
 import hashlib
+import math
 import json
 import os
 import tempfile
@@ -55,7 +56,9 @@ PROP = 'C01'
 RULE = ('random schemas (1-5 classes, 0-6 attributes of every core type in every letter case, names also from the '
         'reserved words and M/MC; simple, reflexive-with-phrases, association-class, subtype relationships; 0-3 '
         'identifiers per class) with populations built through the API, values weighted towards the hazards of the '
-        'text format; plus a sweep placing every reserved word in every identifier position; a case is non-trivial '
+        'text format (integers at the 8/31/53/63/64-bit boundaries); plus a sweep placing every reserved word in every identifier '
+        'position; fixed families: unset-relink (open finding), boundary (255/256/257 rows, 255/256 attributes), twins (two of '
+        'everything), two generations at one path; two of seven extra load routes per case; a case is non-trivial '
         'when it has rows and at least one hazard value or link; distinct = distinct model description')
 EXHAUSTIVE = {'quick': False, 'thorough': False}
 ASSUMPTIONS = [
@@ -64,6 +67,9 @@ ASSUMPTIONS = [
     'files are written and read in the UTF-8 locale of the check',
     "CPython's limit of 4300 digits for int<->str conversion is outside the model (integers stay below it)",
     'links are compared through navigation on both link directions; the key-matching join itself is the subject of C03',
+    "non-finite REALs are outside the persistable domain: the format has no numeral for inf / -inf / nan (m.new('A', r=float('inf')); "
+    "serialize_instances(m) writes the bare word inf, ModelLoader.input raises ParsingException 'illegal token ID (inf)'); the "
+    "family nonfinite only counts what happens",
 ]
 TRUSTED_EXTRA = ['harness/gen_schema.py (generator, canonical dump, six-decimal oracle via the decimal module)']
 CHUNK = 100
@@ -710,6 +716,8 @@ def mm_sexp(m):
 def model_line(case):
     if case['tag'] == 'nonfinite':
         return None                 # inf / nan are no six-decimal numerals: outside the model and outside the domain
+    if any(isinstance(v, float) and not math.isfinite(v) for r in case['spec']['rows'] for v in r['vals']):
+        return None                 # GUARD: a non-finite REAL is no value of the model (outside the persistable domain)
     built = gen_schema.build(_x, case['spec'])
     m = built.m
     parts = [_x.serialize_schema(m), _x.serialize_instances(m), _x.serialize_unique_identifiers(m)]
